@@ -469,6 +469,8 @@ class Sandbox:
         """ Removes the history of any previous executions. """
         self._context_group_start.clear()
         self._context.clear()
+        # Context ids index into the (now empty) history
+        self._next_context_id = 0
 
     ############################################################################
     # Tracing
